@@ -53,6 +53,9 @@ class CxxParam(object):
         self.c_type = tm.c_type
         self.is_enum = tm.sgroup == "enum" if hasattr(tm, "sgroup") else False
         self.init = arg.init
+        self.elem = None
+        if self.is_vector and getattr(arg, "template_arguments", None):
+            self.elem = arg.template_arguments[0].typemap.name
 
     def kind(self):
         if self.is_vector:
@@ -162,8 +165,13 @@ def collect(build):
         if f._generated in ("has_default_arg",):
             # an arity clone: its own (shortened) parameter list is the C++ call's
             orig = f
+        if f._generated == "cxx_template":
+            # an instantiation of a function template: its declaration is the template's with the
+            # instantiation's arguments substituted (f.ast); the arguments are in fmtdict.CXX_template
+            orig = true_orig = f
         fi = FnInfo(f, orig, protos[cname], build)
         fi.full_params = [CxxParam(a) for a in (true_orig.ast.params or [])]
+        fi.template_args = f.fmtdict.CXX_template if f.fmtdict.inlocal("CXX_template") else None
         out[cname] = fi
     return out
 
@@ -230,6 +238,49 @@ class Stub(object):
             ex.e.assume(z3.Implies(z3.ULT(z3.BitVecVal(i, 64), L), z3.Select(src, z3.BitVecVal(i, 64)) != 0))
         return models.new_sstr(ex, L, lambda i: z3.Select(src, z3.BitVecVal(i, 64)))
 
+    def vector_arg(self, ex, p, v, r):
+        """The library sees a std::vector<T> (libstdc++ layout: begin, end, end-of-storage).  What it
+        holds on entry is recorded; for out / inout arguments the library replaces the contents with
+        0..2 elements of its own (storage from operator new, as std::allocator does)."""
+        r.ptr = v
+        if not isinstance(v, Ptr) or v.obj is None:
+            ex.violation("null-deref", "the library receives a null std::vector reference for '%s'" % p.name)
+        esz = VECTOR_ELEM[p.elem]
+        v.obj.tag["class"] = "std::vector<%s>" % p.elem
+        begin, end = ex.load_ptr(v), ex.load_ptr(Ptr(v.obj, bv(v.off) + 8) if conc(v.off) is None else Ptr(v.obj, conc(v.off) + 8))
+        r.vec_begin, r.vec_end = begin, end
+        if isinstance(begin, Ptr) and begin.obj is not None:
+            ex.flush(begin.obj)
+            r.arr, r.base = begin.obj.arr, bv(begin.off)
+            r.len = z3.simplify(bv(end.off) - bv(begin.off))       # bytes
+        else:
+            r.len = z3.BitVecVal(0, 64)
+        if not p.const and p.intent in ("out", "inout"):
+            off0 = conc(v.off)
+            n = 0
+            for k in (0, 1):
+                if ex.e.branch(z3.Bool("lib_vector_%s_has_more_than_%d" % (p.name, k))):
+                    n = k + 1
+                else:
+                    break
+            # the old storage goes back to the allocator
+            if isinstance(begin, Ptr) and begin.obj is not None:
+                models.release(ex, begin, "new", "std::allocator::deallocate")
+            if n == 0:
+                nb = NULL
+                ne = NULL
+                r.reply_obj = None
+            else:
+                so = ex.new_obj("vector_storage_" + p.name, esz * n, "heap", "new")
+                so.tag["owner"] = "vector"
+                nb, ne = Ptr(so, 0), Ptr(so, esz * n)
+                r.reply_obj = so
+            ex.store_ptr(Ptr(v.obj, off0), nb)
+            ex.store_ptr(Ptr(v.obj, off0 + 8), ne)
+            ex.store_ptr(Ptr(v.obj, off0 + 16), ne)
+            r.reply_len = z3.BitVecVal(n, 64)
+            r.reply_arr = r.reply_obj.arr if r.reply_obj is not None else None
+
     def __call__(self, ex, name, argv, argt, rt):
         h = self.h
         info = h.info
@@ -294,6 +345,8 @@ class Stub(object):
             elif kind == "charpp":
                 r.ptr = v
                 r.elems = []
+            elif kind == "vector":
+                self.vector_arg(ex, p, v, r)
             recs.append(r)
         # result
         res = None
@@ -391,8 +444,10 @@ class WrapperHarness(object):
     def unsupported_reason(self):
         info = self.info
         for p in info.params + ([info.result] if info.result else []):
-            if p.kind() in ("vector", "struct"):
-                return "parameter kind %s" % p.kind()
+            if p.kind() == "vector" and (p is info.result or not (p.nptr or p.ref) or p.elem not in VECTOR_ELEM):
+                return "parameter kind vector (%s)" % ("result / by value" if p.elem in VECTOR_ELEM else "of %s" % p.elem)
+            if (p.kind() == "struct" and (p is info.result or not (p.nptr or p.ref))):
+                return "parameter kind %s%s" % (p.kind(), " by value / as result" if p.kind() == "struct" else "")
             if p.kind() == "class" and not (p.nptr or p.ref) and p is not info.result:
                 return "class argument passed by value"
             if p.kind() == "class" and p is info.result and not (p.nptr or p.ref):
@@ -509,7 +564,7 @@ class WrapperHarness(object):
                 o = lc.sym_buffer(ex, "buf_" + key, z3.simplify(tot))
                 self.inp[("buf", key)] = (o, o.arr)
                 argv.append(Ptr(o, 0))
-            elif kind == "nativep" or (kind == "charpp" and rt_.kind == "ptr"):
+            elif kind == "nativep" or (kind in ("charpp", "struct") and rt_.kind == "ptr"):
                 o = lc.sym_buffer(ex, "target_" + key, ir.size_of(rt_.to) if rt_.to.kind != "void" else 8)
                 self.inp[("target", key)] = (o, o.arr)
                 argv.append(Ptr(o, 0))
@@ -570,11 +625,35 @@ class WrapperHarness(object):
                         out.append(("argument '%s' reaches the library with another width" % key, True))
                         continue
                     out.append(("argument '%s' does not reach the library with the caller's value" % key, a != b))
-            elif kind == "nativep" or (kind == "charpp" and ("target", key) in self.inp):
+            elif kind == "nativep" or (kind in ("charpp", "struct") and ("target", key) in self.inp):
                 tgt = self.inp.get(("target", key))
                 if tgt is not None:
                     ok = isinstance(r.value, Ptr) and r.value.obj is tgt[0] and conc(r.value.off) == 0
                     out.append(("argument '%s': the library does not receive the caller's address" % key, not ok))
+            elif kind == "vector":
+                ctx = self.inp.get(("context", key))
+                if ctx is not None and p.intent == "out":
+                    kk = [k for k, (rl, pp) in enumerate(info.roles()) if rl == "context" and pp is p][0]
+                    rs = ir.resolve(ir.resolve(self.module.functions[self.cname].params[kk][0]).to)
+                    esz = VECTOR_ELEM[p.elem]
+                    n = conc(r.reply_len)
+                    addr = ex.load_ptr(Ptr(ctx, ir.field_offset(rs, 0)))
+                    base = ex.load_ptr(Ptr(ctx, ir.field_offset(rs, 1)))
+                    vec = r.ptr
+                    out.append(("vector '%s': the context does not hold the std::vector the library filled" % key,
+                                not (isinstance(addr, Ptr) and addr.obj is vec.obj and conc(addr.off) == conc(vec.off))))
+                    if n == 0:
+                        # an empty vector: no elements to designate
+                        pass
+                    else:
+                        out.append(("vector '%s': the context's base address is not the vector's first element" % key,
+                                    not (isinstance(base, Ptr) and base.obj is r.reply_obj and conc(base.off) == 0)))
+                    out.append(("vector '%s': elem_len is not sizeof(%s)" % (key, p.elem), ex.load_int(Ptr(ctx, ir.field_offset(rs, 3)), 64) != esz))
+                    out.append(("vector '%s': size is not the number of elements the library stored" % key,
+                                ex.load_int(Ptr(ctx, ir.field_offset(rs, 4)), 64) != n))
+                    out.append(("vector '%s': rank is not 1" % key, ex.load_int(Ptr(ctx, ir.field_offset(rs, 5)), 32) != 1))
+                    out.append(("vector '%s': shape(1) is not the number of elements" % key,
+                                ex.load_int(Ptr(ctx, ir.field_offset(rs, 6)), 64) != n))
             elif kind in ("charp", "string"):
                 b = self.inp.get(("buf", key))
                 if b is None:
@@ -628,7 +707,11 @@ class WrapperHarness(object):
                     if z3.is_bool(a) != z3.is_bool(b):
                         a = a if z3.is_bool(a) else a != 0
                         b = b if z3.is_bool(b) else b != 0
-                    out.append(("the C caller does not receive the library's result", a != b))
+                    if not z3.is_bool(a) and a.size() != b.size():
+                        out.append(("the C function returns a %d-bit value, the library function a %d-bit one (result type %s)"
+                                    % (a.size(), b.size(), rp.tname), True))
+                    else:
+                        out.append(("the C caller does not receive the library's result", a != b))
             elif kind == "scalar" and rb is not None and rp.is_char:
                 o, a0 = rb
                 ex.flush(o)
@@ -846,6 +929,7 @@ def demangle(sym):
     return _DEMANGLE[sym]
 
 
+VECTOR_ELEM = {"int": 4, "long": 8, "double": 8, "float": 4, "short": 2, "unsigned int": 4, "long long": 8}
 NATIVE_TEXT = {"int", "long", "double", "float", "bool", "char", "short", "unsigned int", "unsigned long", "long long",
                "unsigned short", "unsigned char", "signed char", "unsigned long long"}
 
@@ -878,6 +962,25 @@ def symbol_mismatch(info, sym):
         return "cannot read callee %s" % dem
     qname, ptext, cst = m.group(1), m.group(2), bool(m.group(3))
     qname = re.sub(r"\[abi:\w+\]", "", qname)
+    targs = None
+    tm = re.match(r"^(.*?)(<.*>)$", qname)
+    if tm:
+        # a function template instantiation demangles as 'RET scope::name<ARGS>(params)'
+        qname, targs = tm.group(1), tm.group(2)
+        depth = 0
+        for k in range(len(qname) - 1, -1, -1):
+            if qname[k] == ">":
+                depth += 1
+            elif qname[k] == "<":
+                depth -= 1
+            elif qname[k] == " " and depth == 0:
+                qname = qname[k + 1:]
+                break
+    want_t = getattr(info, "template_args", None)
+    if (targs or want_t) and not (info.is_ctor or info.is_dtor):
+        norm = lambda t: re.sub(r"\s+", "", t or "")
+        if norm(targs) != norm(want_t):
+            return "the wrapper calls the instantiation %s, the declaration instantiates %s" % (dem, want_t)
     if info.is_ctor or info.is_dtor:
         return None
     if qname.split("::")[-1] != info.cxx_name:
